@@ -55,8 +55,8 @@ RULES = [
     (r"traversal::(Pre|Post)::<'tree, D>::(step_down|trace_down)$", r"assert:overflow_Add", None, "SAFE", CNT),
     (r"traversal::(Pre|Post)::<'tree, D>::(step_up|trace_up)$", r"assert:overflow_Sub", None, "ASSUMED", "depth counter decremented only after a matching increment (cursor went down before it goes up; C19)"),
     (r"match_tree::Aggregator<'t, D>>::match_ellipsis$", r"drain", None, "SAFE", "skipped = len.saturating_sub(..) <= len"),
-    (r"match_tree::match_node::", r"unwrap", r"peek", "ASSUMED", "peek() was checked to be Some on every path to this point by the alignment loop (value level, C02/C03)"),
-    (r"match_tree::match_node::", r"unwrap", r"next", "ASSUMED", "candidate iterator non-empty: peek() checked at loop entry / `cand_children.peek()?` after each advance (value level, C02/C03)"),
+    (r"match_tree::match_node::", r"unwrap", r"peek", "SAFE", "the iterator is known non-empty on every path to this point (Peekable typestate analysis with inferred helper contracts)", {"guard": "peekable_nonempty"}),
+    (r"match_tree::match_node::", r"unwrap", r"next", "SAFE", "the iterator is known non-empty before next() on every path (Peekable typestate analysis with inferred helper contracts)", {"guard": "peekable_nonempty"}),
     (r"match_tree::match_node::", r"assert:overflow_Add", None, "SAFE", CNT),
     (r"matcher::pattern::Pattern::<L>::single_matcher$", r"unwrap", None, "SAFE", "loop condition is_single_node implies child_count >= 1"),
     (r"matcher::pattern::is_single_node$", r"expect", None, "SAFE", "inside the `2 =>` arm of child_count"),
